@@ -5,6 +5,10 @@
 import Gts.Lemmas.Embed
 import Gts.Lemmas.Delete
 import Gts.Model.Seq
+import Gts.Lemmas.Window
+import Gts.Lemmas.Guest
+import Gts.Lemmas.Record
+import Gts.Props.C02
 namespace Gts.C10
 open Gts Loc
 
@@ -182,10 +186,108 @@ theorem concat_pieces_bytes (bs : List UInt8) :
       have : bs.drop b = (bs.drop a).drop (b - a) := by rw [List.drop_drop]; congr 1; omega
       rw [this, List.take_append_drop]
 
+/-- **a piece of a feature, put back by Concat**: the part of a feature that falls into the piece
+`[a, b)`, offset back by `a` as `Concat` does, denotes exactly the feature's residues inside
+`[a, b)` — at their original positions and on their original strand. -/
+theorem piece_den_partial (l : Loc) (a b L : Int) (h0 : 0 ≤ a) (hab : a ≤ b) (hbL : b ≤ L)
+    (hw : wf l = true) (hpos : ∀ p ∈ den l, 0 ≤ p.1 ∧ p.1 < L)
+    (g1 : expandAbs l b (b - L) = false) (g2 : expandAbs (l.expand b (b - L)) 0 (-a) = false)
+    (hnn : nonneg (sliceLoc l a b L) = true) (g3 : expandAbs (sliceLoc l a b L) 0 a = false) :
+    den (expand (sliceLoc l a b L) 0 a) ≼ (den l).filter (fun p => decide (a ≤ p.1 ∧ p.1 < b)) := by
+  have s := sliceLoc_den l a b L h0 hab hbL hw hpos g1 g2
+  have t := guest_translate (sliceLoc l a b L) a s.2 hnn h0 g3
+  have u := mapPos_refines (· + a) s.1
+  have e : mapPos (· + a) (filterMapPos (winMap a b) (den l))
+      = (den l).filter (fun p => decide (a ≤ p.1 ∧ p.1 < b)) := by
+    generalize den l = d
+    induction d with
+    | nil => rfl
+    | cons p ps ih =>
+      simp only [filterMapPos, mapPos, List.filterMap_cons, List.filter_cons, winMap] at ih ⊢
+      by_cases c : a ≤ p.1 ∧ p.1 < b
+      · simp only [c, and_self, if_true, Option.map_some, decide_true, List.map_cons]
+        rw [ih]
+        congr 1
+        apply Prod.ext
+        · simp only; omega
+        · rfl
+      · simp only [c, if_false, Option.map_none, decide_false]
+        exact ih
+  rw [e] at u
+  exact t.trans u
+
+/-- the windows between consecutive cuts partition the positions: every residue of the feature
+falls into exactly one piece (so the pieces together denote exactly the original residues) -/
+theorem windows_partition (cuts : List Int) (a L x : Int)
+    (hs : (a :: cuts).Pairwise (· < ·)) (hl : (a :: cuts).getLast? = some L) (h0 : a ≤ x) (h1 : x < L) :
+    ∃ w ∈ (a :: cuts).zip cuts, w.1 ≤ x ∧ x < w.2 := by
+  induction cuts generalizing a with
+  | nil => simp at hl; omega
+  | cons b cuts ih =>
+    by_cases hx : x < b
+    · exact ⟨(a, b), by simp, h0, hx⟩
+    · obtain ⟨w, hw, hw2⟩ := ih b (List.Pairwise.of_cons hs) (by simpa using hl) (by omega)
+      exact ⟨w, by simp only [List.zip_cons_cons, List.mem_cons]; exact Or.inr hw, hw2⟩
+
 /-- non-vacuity -/
 example : wf (joined [ranged 2 5 true false, ranged 7 9 false true]) = true ∧
     shiftAbs (joined [ranged 2 5 true false, ranged 7 9 false true]) 3 4 = false ∧
     expandAbs (shift (joined [ranged 2 5 true false, ranged 7 9 false true]) 3 4) 3 (-4) = false := by
   decide
+
+/-! ### record level: the two-step programs on whole records -/
+
+/-- **insert;delete, record level**: after deleting the `|guest|` residues just inserted at `i`,
+every host feature is present with unchanged key and qualifiers and a location denoting exactly
+its original residues (order and strand). -/
+theorem insert_delete_feature_partial (host guest : Gts.Seq) (i : Int) (hg : 0 < guest.len)
+    (f : Feature) (hf : f ∈ host.feats) (hw : wf f.loc = true)
+    (h1 : shiftAbs f.loc i guest.len = false)
+    (h2 : expandAbs (shift f.loc i guest.len) i (-guest.len) = false) :
+    ∃ f' ∈ ((host.insert i guest).delete i guest.len).feats, f'.key = f.key ∧ f'.props = f.props ∧
+      den f'.loc ≼ den f.loc := by
+  have hm : ({ f with loc := f.loc.shift i guest.len } : Feature) ∈ (host.insert i guest).feats :=
+    mem_of_perm_map_append_left (C02.insert_table_perm host guest i) hf
+  refine ⟨{ f with loc := (f.loc.shift i guest.len).expand i (-guest.len) }, ?_, rfl, rfl,
+    shift_then_delete_den_partial f.loc i guest.len hw hg h1 h2⟩
+  show _ ∈ ((host.insert i guest).feats.map fun f => { f with loc := f.loc.expand i (-guest.len) })
+  exact List.mem_map_of_mem hm
+
+/-- **embed;delete, record level** -/
+theorem embed_delete_feature_partial (host guest : Gts.Seq) (i : Int) (hg : 0 < guest.len)
+    (f : Feature) (hf : f ∈ host.feats) (hw : wf f.loc = true)
+    (h1 : expandAbs f.loc i guest.len = false)
+    (h2 : expandAbs (expand f.loc i guest.len) i (-guest.len) = false) :
+    ∃ f' ∈ ((host.embed i guest).delete i guest.len).feats, f'.key = f.key ∧ f'.props = f.props ∧
+      den f'.loc ≼ den f.loc := by
+  have hm : ({ f with loc := f.loc.expand i guest.len } : Feature) ∈ (host.embed i guest).feats :=
+    mem_of_perm_map_append_left (C02.embed_table_perm host guest i) hf
+  refine ⟨{ f with loc := (f.loc.expand i guest.len).expand i (-guest.len) }, ?_, rfl, rfl,
+    embed_then_delete_den_partial f.loc i guest.len hw hg h1 h2⟩
+  show _ ∈ ((host.embed i guest).feats.map fun f => { f with loc := f.loc.expand i (-guest.len) })
+  exact List.mem_map_of_mem hm
+
+/-- a host feature that is a plain range comes back *syntactically* (markers included) from both
+programs, at every index — in particular a `source` feature ending at `i = Len(host)` -/
+theorem ranged_feature_round_trip (host guest : Gts.Seq) (i : Int) (hg : 0 < guest.len)
+    (k : String) (ps : List (List String)) (s e : Int) (p5 p3 : Bool) (hse : s < e)
+    (hf : (⟨k, ranged s e p5 p3, ps⟩ : Feature) ∈ host.feats) :
+    (⟨k, ranged s e p5 p3, ps⟩ : Feature) ∈ ((host.insert i guest).delete i guest.len).feats ∧
+    (⟨k, ranged s e p5 p3, ps⟩ : Feature) ∈ ((host.embed i guest).delete i guest.len).feats := by
+  constructor
+  · have hm := mem_of_perm_map_append_left (C02.insert_table_perm host guest i) hf
+    have : (⟨k, ranged s e p5 p3, ps⟩ : Feature) =
+        (fun f : Feature => { f with loc := f.loc.expand i (-guest.len) })
+          ⟨k, (ranged s e p5 p3).shift i guest.len, ps⟩ := by
+      simp [ranged_shift_then_delete s e p5 p3 i guest.len hse hg]
+    rw [this]
+    exact List.mem_map_of_mem hm
+  · have hm := mem_of_perm_map_append_left (C02.embed_table_perm host guest i) hf
+    have : (⟨k, ranged s e p5 p3, ps⟩ : Feature) =
+        (fun f : Feature => { f with loc := f.loc.expand i (-guest.len) })
+          ⟨k, (ranged s e p5 p3).expand i guest.len, ps⟩ := by
+      simp [ranged_embed_then_delete s e p5 p3 i guest.len hse hg]
+    rw [this]
+    exact List.mem_map_of_mem hm
 
 end Gts.C10
